@@ -690,6 +690,7 @@ func runC16(cfg Config) {
 	c16LargeChunks(cfg, rep, rng)
 	c16WindowChunks(cfg, rep, rng)
 	runGCSPrune(cfg, rep, m, rng)
+	storeOptsStores(cfg, rep, m, rng) // which configuration entry (format) a store is opened with, symlinked locations included
 	rep.Write(cfg.Out)
 }
 
